@@ -18,7 +18,6 @@ package c14
 
 import (
 	"fmt"
-	"os"
 	"sort"
 	"strconv"
 	"strings"
@@ -42,8 +41,8 @@ type c14Val struct {
 	m    map[string]*c14Val
 }
 
-func c14S(s string) *c14Val       { return &c14Val{kind: 's', s: s} }
-func c14L(e ...*c14Val) *c14Val   { return &c14Val{kind: 'l', l: e} }
+func c14S(s string) *c14Val     { return &c14Val{kind: 's', s: s} }
+func c14L(e ...*c14Val) *c14Val { return &c14Val{kind: 'l', l: e} }
 func c14M(kv ...any) *c14Val {
 	m := map[string]*c14Val{}
 	for i := 0; i < len(kv); i += 2 {
@@ -761,14 +760,19 @@ func c14RunHistory(shapes []*c14Val, alpha []*c14Step, nd c14Node) (res c14Resul
 				return
 			}
 			if a != st.a.String() || b != st.b.String() {
-				viol("replay-diverged", "before step %d $a = %s, $b = %s, reference %s, %s", i, c14Short(a), c14Short(b), c14Short(st.a.String()), c14Short(st.b.String()))
+				viol("variable-changed-while-taking-aliases", "taking aliases before step %d (var, closure, list and map literals, indexing, conj/assoc/dissoc/slices of the value) left $a = %s, $b = %s, reference %s, %s",
+					i, c14Short(a), c14Short(b), c14Short(st.a.String()), c14Short(st.b.String()))
 				return
 			}
 			pre = got
 			for k, al := range r.aliases {
 				if got[k] != al.want {
-					viol("alias-wrong-before-step:"+al.kind, "alias (%s %s, taken before step %d) reads %s before step %d, reference %s",
-						al.kind, al.expr, al.born, c14Short(got[k]), i, c14Short(al.want))
+					key, what := "alias-changed-while-taking-aliases:", "was changed by taking the aliases of step"
+					if al.born == i {
+						key, what = "alias-wrong-when-taken:", "is wrong right after being taken before step"
+					}
+					viol(key+al.kind, "alias (%s %s, taken before step %d) %s %d: reads %s, reference %s",
+						al.kind, al.expr, al.born, what, i, c14Short(got[k]), c14Short(al.want))
 					break
 				}
 			}
@@ -876,9 +880,6 @@ func TestVerifC14(t *testing.T) {
 		const depth = 3
 		lastTier := vk.Pick(c, 0, 1)
 		maxLevel := depth
-		if d, err := strconv.Atoi(os.Getenv("C14_DEPTH")); err == nil { // TEMPORARY
-			maxLevel = d
-		}
 		shapes := c14Shapes()
 		alpha := c14Alphabet()
 		var lastIdx, allIdx []int
